@@ -208,20 +208,20 @@ def ensure(root=None, want_ir=False, cfgs=("N", "A")):
 
 def _prune_cache(keep):
     """Keep disk use bounded: drop cache entries of other trees that have not
-    been used for two hours (never one that may be in use by a concurrent run),
-    and always keep the 12 most recent."""
+    been used for half an hour (never one that may be in use by a concurrent run),
+    and always keep the 40 most recent."""
     import time
     try:
         ents = [e for e in os.listdir(CACHE)
-                if os.path.isdir(os.path.join(CACHE, e)) and e != keep and not e.startswith("btv-")]
+                if os.path.isdir(os.path.join(CACHE, e)) and e != keep and not e.startswith(("btv-", "replay-"))]
     except OSError:
         return
     now = time.time()
     ents.sort(key=lambda e: os.path.getmtime(os.path.join(CACHE, e)), reverse=True)
-    for e in ents[12:]:
+    for e in ents[40:]:
         pth = os.path.join(CACHE, e)
         try:
-            if now - os.path.getmtime(pth) < 7200:
+            if now - os.path.getmtime(pth) < 1800:
                 continue
         except OSError:
             continue
